@@ -281,10 +281,10 @@ func uniqueMap(t *rapid.T, headerTags bool, bits map[string]uint) *gostatsd.Metr
 		m := &gostatsd.Metric{Name: rapid.SampledFrom([]string{"a", "b", "req.time"}).Draw(t, "name"), Rate: 1, Timestamp: gostatsd.Nanotime(u),
 			Source: gostatsd.Source(rapid.SampledFrom([]string{"", "1.1.1.1"}).Draw(t, "src"))}
 		if headerTags {
-			if r := rapid.SampledFrom([]string{"", "region:us", "region:eu"}).Draw(t, "region"); r != "" {
+			if r := rapid.SampledFrom([]string{"", "region:us", "region:eu", "region:us:east-1", "region:eu:"}).Draw(t, "region"); r != "" {
 				m.Tags = append(m.Tags, r)
 			}
-			if s := rapid.SampledFrom([]string{"", "service:web", "service:api"}).Draw(t, "service"); s != "" {
+			if s := rapid.SampledFrom([]string{"", "service:web", "service:api", "service:web:8080"}).Draw(t, "service"); s != "" {
 				m.Tags = append(m.Tags, s)
 			}
 		}
